@@ -17,3 +17,15 @@ func VerifCloseSession(ul *Upstreams) bool {
 	_ = s.Close()
 	return true
 }
+
+// VerifNumStreams: number of logical streams the stored session carries (-1: none / busy)
+func VerifNumStreams(ul *Upstreams) int {
+	if !ul.mutex.TryLock() {
+		return -1
+	}
+	defer ul.mutex.Unlock()
+	if ul.session == nil {
+		return -1
+	}
+	return ul.session.NumStreams()
+}
